@@ -229,7 +229,7 @@ pub fn run(ctx: &Ctx) -> RunResult {
         "'accepted as carrying a valid FINGERPRINT' = a decode returns a FINGERPRINT attribute and (validated decode succeeded or Fingerprint::validate over get_input_text is true)".into(),
         "CRC-32 detects all single-bit and single-byte (burst <= 8 bit) errors, so no accidental collision is possible in this fault class".into(),
     ];
-    rr.absorb(run_prop(ctx, "fingerprint", ctx.pick(2_000, 60_000), arb_case, |c, st| check_fp(c, st)));
+    rr.absorb(run_prop(ctx, "fingerprint", ctx.pick(4_000, 60_000), arb_case, |c, st| check_fp(c, st)));
     crate::props::c10_client::run_into(ctx, &mut rr);
     rr
 }
